@@ -82,6 +82,14 @@ def regen_consts(ctx):
         mb = re.search(r"func \(m \*authenticatedMap\[[^\]]*\]\) " + meth + r"\(.*?\n}\n", src, re.S)
         cs = [" ".join(c.split()) for c in re.findall(r"(?:\bif |\}\); )([^\n]*?) \{\n", mb.group(0) if mb else "")]
         conds.append((meth, [re.sub(r"func\(.*$", "func...", c) for c in cs]))
+    # kvstore/typedvalue.go (the root and size cells): serializer calls, store calls, cache assignments and returns of Set / Get in
+    # source order - a failed Set caches nothing; Get caches "absent" only for ErrKeyNotFound and a value only after it decoded
+    tvsrc = open(os.path.join(ctx.repo, "kvstore", "typedvalue.go")).read()
+    tv_pat = re.compile(r"(t\.vToBytes\(|t\.bytesToV\(|t\.kv\.\w+\(|t\.valueCached = [^\n]*|t\.hasCached = [^\n]*|return [^\n]*)")
+    tv = []
+    for meth in ["Set", "Get"]:
+        mb = re.search(r"func \(t \*TypedValue\[V\]\) " + meth + r"\(.*?\n}\n", tvsrc, re.S)
+        tv.append((meth, [" ".join(x.split()).rstrip("(") for x in tv_pat.findall(mb.group(0) if mb else "")]))
     nilrule = re.search(r"if valueBytes == nil \{\s*(valueBytes = [^\n]*)\s*\}", src)
 
     def lstr(xs):
@@ -101,6 +109,8 @@ def regen_consts(ctx):
             f"def nilValueRule : String := {lstr([' '.join(nilrule.group(1).split()) if nilrule else '?'])[1:-1]}"]
     for meth, toks in calls:
         out.append(f"def calls_{meth} : List String := {lstr(toks)}")
+    for meth, toks in tv:
+        out.append(f"def typedValue_{meth} : List String := {lstr(toks)}")
     for meth, cs in conds:
         out.append(f"def conds_{meth} : List String := {lstr(cs)}")
     out += ["", "end Hive.Gen.C09Consts", ""]
@@ -145,7 +155,7 @@ SPEC = {
                  "C09_skeleton_has", "C09_skeleton_get", "C09_skeleton_stream", "C09_skeleton_restored",
                  "C09_skeleton_has_helper", "C09_skeleton_addSize",
                  "C09_skeleton_constructor", "C09_skeleton_set_flavour", "C09_skeleton_type_map", "C09_skeleton_adapter",
-                 "C09_layout_regenerated", "C09_calls_regenerated", "C09_conditions_regenerated",
+                 "C09_layout_regenerated", "C09_calls_regenerated", "C09_conditions_regenerated", "C09_typed_value_cells_regenerated",
                  "C09_id_codec_invisible", "C09_id_codec_run", "C09_id_reopen_after_commit", "C09_id_restored_iff_commit",
                  "C09_id_decoder_failure", "C09_id_import_through_codec_witness",
                  "C09_typed_refines", "C09_typed_root_eq_iff", "C09_stack_refines", "C09_typed_size_eq_card", "C09_typed_stream_complete", "C09_typed_stream", "C09_typed_stream_key_decode_error_witness", "C09_typed_set_flavour",
